@@ -668,3 +668,48 @@ def _unconditional_components(expr, depth=12) -> Set[str]:
     if isinstance(expr, ast.Subscript):
         return _unconditional_components(expr.value, depth - 1)
     return out
+
+
+def k_r5_every_call_asks_the_server(p: Project, rep: Report):
+    """the cache is a fallback for `up to date`, never a substitute for asking"""
+    from .flat import flat
+    from .rules_client import client_class
+
+    rep.rule("K-R5", "every call of request_profile() asks the server: no `return` of the function (helpers inlined) lies before the call of _request_profile() - a cached profile is handed back only after the server has answered `up to date` for its date.  A shortcut that returns a RECENT cache file without asking (an age test on the file's mtime) serves a stale profile while the server already has a newer one, and turns calls that should fail (error reply, transport failure) into successes")
+    ci = client_class(p)
+    fn0 = ci.own_func("request_profile")
+    if fn0 is None:
+        raise AnalysisError("OFXClient.request_profile not found")
+    fn = flat(p, ci.module, fn0, ci, keep=("_request_profile",))
+    asks = [c for c in ast.walk(fn) if isinstance(c, ast.Call) and text(c.func) == "self._request_profile"]
+    if not asks:
+        rep.check("K-R5", "request_profile:asks-the-server", False, "request_profile() never calls _request_profile(): the server is not asked at all", loc(p, fn0))
+        return
+    first = min(asks, key=lambda c: (c.lineno, c.col_offset))
+    # position in the flattened function: statement order
+    order = {id(st): i for i, st in enumerate(ast.walk(fn))}
+    ask_stmt = None
+    for st in ast.walk(fn):
+        if isinstance(st, ast.stmt) and any(x is first for x in ast.walk(st)) and not isinstance(st, (ast.FunctionDef, ast.If, ast.For, ast.While, ast.With, ast.Try)):
+            ask_stmt = st
+
+    def before(stmts):
+        """returns that can execute before the ask statement: walk blocks in order until the ask is met"""
+        found = []
+        for st in stmts:
+            if st is ask_stmt or any(x is ask_stmt for x in ast.walk(st)):
+                # descend into the compound statement that holds the ask
+                for fld in ("body", "orelse", "finalbody"):
+                    sub = getattr(st, fld, None)
+                    if isinstance(sub, list) and sub and isinstance(sub[0], ast.stmt) and any(x is ask_stmt for s_ in sub for x in ast.walk(s_)):
+                        f2, _ = before(sub)
+                        found += f2
+                return found, True
+            found += [x for x in ast.walk(st) if isinstance(x, ast.Return) ] if not isinstance(st, (ast.FunctionDef, ast.ClassDef)) else []
+        return found, False
+
+    early, met = before(fn.body)
+    if not met:
+        rep.note("K-R5 undecided: the position of the server request in request_profile was not determined")
+        return
+    rep.check("K-R5", "request_profile:no-return-before-asking", not early, f"`{text(early[0])[:50]}` (line {early[0].lineno}) returns before _request_profile() is called: a profile is handed back without the server having been asked with the held date - a newer profile is never fetched while the shortcut applies, and an error the server would have reported is not seen" if early else "", loc(p, early[0] if early else fn0))
